@@ -12,1326 +12,1163 @@ Definition show_fres (r : fres) : string :=
   end.
 Definition check (rs : list rune) : string := digest (show_fres (format_res rs)).
 Definition full (rs : list rune) : string := show_fres (format_res rs).
-Eval vm_compute in ("<<<M1618>>>" ++ check (runes_of_ascii "
-
-  // top
-  packet 	 // c0a
-	// c0b
-	  Frame // c1a
-  	// c1b
-
-{ // c2a
-// c2b
-
-u8 	 // c3
-	HK  // c4
-	, 
-  // c5
-  u8
-// c6
-	BK 	 // c7
-,	// c8a
-	  // c8b
-  u8	// c9
-	TK // c10
-
-	,	// c11a
-
-  // c11b
-	match // c12
-	HK
-	as  Hdr// c15a
-// c15b
-    { // c16
-1  
-  // c17
-:
-    // c18
-	HdrA
-,
-    2	// c21
-	: 
-// c22
-      HdrB // c23
-  ,// c24a
-
-  // c24b
-} ,
-	    // c26
-match
-
-    // c27
-
-BK	as 
-
-// c29
-    	Body	// c30
-
-	{
-    // c31
-
-	1:// c33a
-
-  // c33b
-
-  BodyA  // c34
-, 
-        // c35
-	  2 :
-	    // c37
-    	BodyB , 
-}	// c40a
-// c40b
-	, // c41
-    match	// c42
-TK 
-      // c43
-  as // c44
-
-Trl  // c45a
-
-	// c45b
-    { // c46a
-	// c46b
-	1 
-
-// c47
-  :// c48
-TrlA
-, 	 // c50a
-
-  // c50b
-	}	// c51a
-    // c51b
-,	// c52a
-  // c52b
-	} // c53a
-  // c53b
-
-packet	HdrA  // c55
-
-{ u8// c57
-  a// c58a
-      // c58b
-	,// c59
-
-	}// c60
-packet  // c61a
-// c61b
-
-	HdrB
-	// c62
-
-	{	// c63a
-
-// c63b
-    u16
-
-// c64
-b// c65
-  	,// c66
-  } 	 // c67
-
-	packet // c68
-      BodyA 
-{	// c70a
-    // c70b
-	u32
-    // c71
-c // c72
-  	,	}  // c74
-packet 
-// c75
-  	BodyB
-
-{ 
-        // c77
-u64	// c78a
-      // c78b
-  d// c79
-,// c80a
-    // c80b
-	}// c81a
-
-// c81b
-  packet
-TrlA // c83a
-	// c83b
-	{
-// c84
-
-  u8
-e 	 // c86
-	, 
-// c87
-}  // c88a
-	// c88b
-  root  // c89a
-  	// c89b
-    packet
-    // c90
-    	Msg
-
-    // c91
-    	{ Frame ,	// c94a
-      // c94b
-      u8  // c95a
-		// c95b
-    	x	// c96a
-// c96b
-      ,	// c97a
-// c97b
-    }
-    // c98
-")).
-Eval vm_compute in ("<<<M1430>>>" ++ check (runes_of_ascii "
-packet o
-// trailing space 
-//x
-{repeat
-	pack
-stringy
-	`two words`
-
-, char[ 1 ]
-leftPad , }
-	/// triple
-// @lengthOf(
-MetaData  msg_type { zchar[
-1
-] Pad `" ++ [28040; 24687; 31867; 22411]%N ++ runes_of_ascii "`,uint32	//x
-	charz 	 //
-
-`a\` ,
-
-A
-    u8x`// not a comment`
-,
-
-    // `tick` ""quote"" 'q'
-	} 
-packet
-options1
-    {  @calculatedFrom(	""" ++ [233]%N ++ runes_of_ascii "t" ++ [233]%N ++ runes_of_ascii """)
-@rightPad
-()Pad
-    @lengthOf(	// packet A { u8 x, }
-
-pack )``,match	A
-    as a1
-{255:
-msg_type
-    , } , 
-// " ++ [27880; 37322]%N ++ runes_of_ascii "
-
-//
-    @lengthOf(
-tag
-	)
-
-@tag(00
-
-    ) 
-@rightPad	(  ' ')match 
+Eval vm_compute in ("<<<M1582>>>" ++ check (runes_of_ascii "
+MetaData Logon
+    {	zchar[ 7 ]
+	BodyLength	,
+	char
 Header
-as
-
-f32a
-{
-	"""" 
-: float	,
-} // @lengthOf(
-  	,
-
-char[]
-
-T @calculatedFrom( 
-    // packet A { u8 x, }
-""packet"" )
-
-    , repeat
-    asx/// triple
-    msg_type `crlf
-line`,
-@calculatedFrom(""\" ++ [233]%N ++ runes_of_ascii """
-	)
-@tag( 	 // trailing space 
-	7 )  int64
-o
-	`line1
-line2` ,
-// trailing space 
-  }	// " ++ [128512]%N ++ runes_of_ascii " emoji
-	root	packet  // packet A { u8 x, }
-    crc
-    {int8 body
-
-@lengthOf( matchKey )
-
-`two words` ,
-//	t
-
-@lengthOf(u8x  ) zchar[
-
-0123456789
-]  i8i8
-,
-
-    }
-
-MetaData a1 {falsey _x `
-`, char[]body	`" ++ [28040; 24687; 31867; 22411]%N ++ runes_of_ascii "` 
-, 
-	// packet A { u8 x, }
-	//
-zchar[
-    42]
-	trueish
-    `
-`  , float
-
-trueish  ,
-	metadata //x
-		o`{ , }`,
-
-    }")).
-Eval vm_compute in ("<<<M1523>>>" ++ check (runes_of_ascii "  options 
-{
-FixedStringPadFromLeft=
-
-    true
-    ; FixedStringPadChar =  '0' 
-;  }
-	packet Leg	{
-    InPrice0 {
-	repeat
-string	clOrdID
-
-    , int16
-msgKind ,
-zchar[
-	5
-    ]	Px	,	}
-, i16
-f1
-    , repeat f64
-Side2 
-,string Acct ,
-
-}
-
-packet	Cancel  {
-zchar[
-	4 
-] 
-clOrdID ,string 
-seqNo,
-Leg
-	,	@leftPad
-( 
-'0'	)
-
-char[
-	11]
-
-    OrderId
-
-,
-}packet	Quote	{
-
-repeat  char[ 4	]
-sym
-,
-f64  OrderId
-
-, repeat	Leg
-	, repeat
-
-i64
-
-    f1 , 
-int16 Note ,	zchar[	3	]
-count
-	,  } root
-	packet
-Ack
-{@leftPad
-( 
-' ' 
-)
-	char[ 10
-	]
-    sym ,InPx60{
-    Cancel  ,repeat 
-char[ 1]f1	,
-    string Tail,
-    repeat
-
-InNote55
-    {  int8 count
-
-    ,
-    f64  f1 ,  repeat Cancel ,	} ,
-    char[] 
-tag7
-
-    ,
-
-    repeat 
-string 
-msgKind, }
-
-    , u8
-lastPx	,
-match  lastPx
-as
-    Body
-{ 152:Quote
-
-,  173
-
-    : 
-Cancel
-
-    , 4
-
-    :  Leg
-	,
-}
-,u16 Ref @calculatedFrom( ""CR\
-C32"" ),
-
-}
-
-")).
-Eval vm_compute in ("<<<M135>>>" ++ check (runes_of_ascii "
-packet crc
-    {@tag(	0)  @calculatedFrom(
-    ""{,}""	) @rightPad ( ' ')	repeat uint8 lengthOf // a // b
-,
-    char[	42 ] float ,
-    repeat a1 // packet A { u8 x, }
-{ match
-x_y_z as charz
-    { [
-00
-, 4294967296,
-//x
-// a // b
-""it's"",""" ++ [28040; 24687]%N ++ runes_of_ascii """ ] ://x
-zchar,	[
-    ""packet"" ,// c
-""x y"",
-""it's"" ,""abc"" ,
-""it's""
-    ] :string_ , 0 : Z9_
-}
-    // `tick` ""quote"" 'q'
-    , // `tick` ""quote"" 'q'
-} ,match u8x
-as//x
-pack {[ 0123456789
-, ""x y""
-] : // c
-trueish /// triple
-, }	,
-    @calculatedFrom( ""a\""b""
-    // c
-    ) repeat string_ `a\`,
-packetx@calculatedFrom(
-""`tick`"" ) , int64 chars `say ""hi""` , @calculatedFrom(
-""a	b"" )@leftPad (  '\x00'
-) @lengthOf(
-    repeatCount)u64
-    falsey@calculatedFrom( ""\" ++ [233]%N ++ runes_of_ascii """
-    )
-,
-repeat Header { repeat
-    metadata , char[] chars`" ++ [28040; 24687; 31867; 22411]%N ++ runes_of_ascii "` , zchar[ 10] x_y_z `a\` ,	},
-// trailing space 
-// c
-}
-")).
-Eval vm_compute in ("<<<M1896>>>" ++ check (runes_of_ascii "  options  {
-
-    StringPrefixLenType
-
-=
-
-    u16
-
-    ; ArrayPrefixLenType =u32 
-;
-FixedStringPadFromLeft 
-=true
-;
-
-FixedStringPadChar
-=
-    '0'  ;
-}
-	packet 
-Cancel  {}
-	packet Party
-
-    { } packet  Logon
-
-    {}packet
-    Ack{
-    }
-    packet
-Logout
-
-    {	repeat  InSym87
-{ InClordid94
-{ string
-clOrdID 
-,	}
-	,
-
-string  Px
-	,
-    i16
-Qty ,
-
-    repeat
-	InCount71
-{
-    repeat	Cancel
-,
-uint16 Tail, 
-char[ 
-2  ] x ,
-	repeat
-    string
-
-Ref
-, 
-},
-
-    Cancel,},
-    }
-root 
-packet 
-Order { repeat
-string
-
-    tag7
-, @leftPad
-
-    (  ' '	) 
-char[ 3
-
-]  Px,
-
-u8 Qty
-,	match
-Qty as 
-Body  {
-
-    [  28	, 
-62 ]:Logon,
-
-148  :Ack
-	,88 
-:	Party
-,
-184
-    : Cancel  ,
-}
-    , u16
-Note @calculatedFrom(  ""CRC32"" )
-, }
-
-")).
-Eval vm_compute in ("<<<M1120>>>" ++ check (runes_of_ascii "// top
-root
-    // c0
-packet
-    // c1
-_x
-    // c2
-{
-    // c3
-match
-    // c4
-Foo
-    // c5
-as
-    // c6
-Z9_
-    // c7
-{
-    // c8
-""a	b""
-    // c9
-:
-    // c10
-Pad
-    // c11
-,
-    // c12
-}
-    // c13
-,
-    // c14
-repeat
-    // c15
-x
-    // c16
-`line1
-line2`
-    // c17
-,
-    // c18
-@rightPad
-    // c19
-(
-    // c20
-' '
-    // c21
-)
-    // c22
-@calculatedFrom(
-    // c23
-""a\\""
-    // c24
-)
-    // c25
-metadata
-    // c26
-MetaDataX
-    // c27
-,
-    // c28
-@tag(
-    // c29
-0
-    // c30
-)
-    // c31
-Logon
-    // c32
-int
-    // c33
-``
-    // c34
-,
-    // c35
-}
-    // c36
-options
-    // c37
-{
-    // c38
-T
-    // c39
-=
-    // c40
-'\x00'
-    // c41
-}
-    // c42
-")).
-Eval vm_compute in ("<<<M1118>>>" ++ check (runes_of_ascii "MetaData Packet
-    // c1
-{ // c2
-} packet // c4a
-  // c4b
-charz // c5a
-  // c5b
-{ // c6a
-  // c6b
-Foo // c7
-asx `it's` ,
-    // c10
-@lengthOf( // c11
-T )
-    // c13
-@calculatedFrom(
-    // c14
-"""" // c15
-)
-    // c16
-@calculatedFrom(
-    // c17
-""x y"" // c18
-) // c19a
-  // c19b
-zchar[ 007 // c21
-] repeatCount @lengthOf(
-    // c24
-int // c25
-)
-    // c26
-`a\`
-    // c27
-, // c28a
-  // c28b
-i8
-    // c29
-string_ // c30a
-  // c30b
-, // c31
-repeat // c32
-options1 // c33
-Pad
-    // c34
-, } // c36a
-  // c36b
-root packet
-    // c38
-Packet { int8 // c41
-float `doc` // c43
-, // c44
-}
-    // c45
-")).
-Eval vm_compute in ("<<<M1423>>>" ++ check (runes_of_ascii "packet
-rootA { options1
-_x,u64	Header 
-,
-} packet
-	lengthOf
-{ 
-@rightPad (
-    ' ')
-@lengthOf(
-    u128 	 // trailing space 
-    )
-@calculatedFrom(""a\""b""
-) 
-A
-{
-string
-i64_
-
-`it's` , 
-    //	t
-    	// trailing space 
-	uint8  body, 
-match
-pack as	u { 
+    , 
 
 // @lengthOf(
-    // trailing space 
-	00
-    :
-charz	,
-    00
-    : int ,
+int8 
+x_y_z  // @lengthOf(
+    `u8 x,`,
+	i32
+falsey ,//
+int16
 
-    3
+lengthOf`two words` ,
 
-: falsey
+    }
+    root packet options1
+{
 
-255 
-: body
-,
-    [  0123456789
+repeat A BodyLength, metadata {
+	u64
+	calculatedFrom
+``  ,
+	}
 
-] :
-x_y_z
+    ,	body{ i16
+matchKey ,
+uint16 packetx`// not a comment`
 
     , 
-// a // b
-	//
-  } 
-, 
-}
-    ,
-    }
+a1 	 // 50% %s
+  `` ,repeat
 
-    MetaData  chars
-{
-u128 zchar  , char[42
-	]
-
-    // a // b
-	  // a // b
-	  metadata
-    ,
-	}
-")).
-Eval vm_compute in ("<<<M334>>>" ++ check (runes_of_ascii "MetaData pack {
-int16 rootA `{ , }` ,
-    //	t
-    int16 // c
-x,// " ++ [27880; 37322]%N ++ runes_of_ascii "
-u32 msg_type,
-    }
-packet i64_
-    {// trailing space 
-@leftPad
-    ( '0') @rightPad ( '\x00' // packet A { u8 x, }
-)
-@lengthOf(options1	)
-    string body @lengthOf( asx) `" ++ [233]%N ++ runes_of_ascii "` ,
-    }
-options { msg_type
-    //	t
-    = 00//
-;} MetaData
-    stringy// c
-{
-    zchar MetaDataX `line1
-line2` , char[255] len `it's` , f32 pack ,
-    uint16 Foo
-`it's` , int16 i64_`two words` ,
-    // `tick` ""quote"" 'q'
-    }")).
-Eval vm_compute in ("<<<M335>>>" ++ check (runes_of_ascii "//	t
-packet u8x  {
-u8x { body
-@calculatedFrom(	""`tick`"") `say ""hi""`
-,match a1	as
-    asx // c
-{
-    //	t
-    0
-    :
-// " ++ [27880; 37322]%N ++ runes_of_ascii "
-// @lengthOf(
-asx }
-    ,}
-, @rightPad ( )
-    match Logon as	x { [
-    00 , ""// no comment"" , ""a\\"",0123456789
-    // trailing space 
-    ,
-    4294967296 ] : crc , 00:options1 , // " ++ [27880; 37322]%N ++ runes_of_ascii "
-42
-    :i8i8,0 : o 0123456789
-: body , } ,@tag(
-7 )float
-    @lengthOf(
-stringy) `" ++ [233]%N ++ runes_of_ascii "`,
-u
-    // c
-    @lengthOf( msg_type )
+    packetx 
+    // " ++ [27880; 37322]%N ++ runes_of_ascii "
+  , }
+    ,body u8x
+`a\` 
 ,
-    }")).
-Eval vm_compute in ("<<<M1760>>>" ++ check (runes_of_ascii "
-// top
 
-  MetaData  // c0
-uint8x  // c1
-    	{  // c2
-      char[]  // c3
-	f32a// c4
-    `// not a comment`	// c5
-  ,	// c6
-  float32  // c7
-  roots // c8
+@tag( 
+10
+	)
+    @tag(
 
-,  // c9
-char[ // c10
+00  )
+    // c
+	@rightPad (  '\x00'  )
+repeat tag 
+{
+i16  u
 
-  7  // c11
-	] // c12
-    u8x // c13
-	  ,	// c14
-  zchar[// c15
-  10// c16
-		] 	 // c17
-f32a 	 // c18
-, 	 // c19
-    u64 // c20
-	pack // c21
+    `" ++ [233]%N ++ runes_of_ascii "`
+	, 
+}
+,
+        // a // b
+  // c
+@lengthOf( u
+	)	@calculatedFrom( """ ++ [128512]%N ++ runes_of_ascii """  )
+i16
 
-,	// c22
+    falsey  ,f32a  @lengthOf(  uint8x ) `it's` , asx
 
-u16 	 // c23
-pack// c24
-      , // c25
-  } 	 // c26
+@lengthOf( 	 // 50% %s
+
+Header
+)	`two words`
+	,
+        // `tick` ""quote"" 'q'
+	@lengthOf( A//
+	)
+
+    @lengthOf( 
+int )@calculatedFrom( ""1"" 
+)	char[]	uint8x
+
+    ,x_y_z@lengthOf(
+    Foo
+
+) 
+`crlf
+line` 
+, 
+} packet	// @lengthOf(
+    stringy { repeat 
+string len
+
+    ,
+@calculatedFrom( 
+""{,}""
+)repeat
+	o //
+
+{ u64 float,
+
+    }, 
+match  i64_ as 
+Pad  {
+[1
+] :
+    roots
+    ,""it's"" 
+	// packet A { u8 x, }
+	: 	 // @lengthOf(
+	uint8x 
+1
+
+    :
+
+MetaDataX	,
+[
+
+255
+    ,	""a\""b""	,	// `tick` ""quote"" 'q'
+	""" ++ [233]%N ++ runes_of_ascii "t" ++ [233]%N ++ runes_of_ascii """  //	t
+    ,65535 ,
+4294967296,7
+	,	0123456789 ] 
+: 
+len 
+,
+255:metadata, ""it's"" 
+:
+calculatedFrom ,
+// `tick` ""quote"" 'q'
+    	}  ,
+    @lengthOf(  msg_type
+    ) falsey@calculatedFrom(	""" ++ [28040; 24687]%N ++ runes_of_ascii """	)
+,repeat	char[]	trueish ,zchar[1  ]  A ,  // `tick` ""quote"" 'q'
+  repeat
+	metadata 
+{
+zchar[ 
+  // c
+
+  //x
+
+	7
+    ]
+
+Pad  ,	} 
+,@tag( 3  //
+) i32  body
+
+`u8 x,`
+    ,	} // trailing space ")).
+Eval vm_compute in ("<<<M1503>>>" ++ check (runes_of_ascii "  options { packetx 	 /// triple
+	  =42
+;	}  root packet 
+falsey{ @tag(  1 )
+	crc {	repeat 
+char[007
+
+] charz	// 50% %s
+	  `it's`
+	,repeat
+u8  len `
+`
+    ,
+	crc
+trueish 
+,
+}
+	,	match
+float  as
+
+string_
+{	""x y"" 
+:  
+      // " ++ [27880; 37322]%N ++ runes_of_ascii "
+	  //
+zchar ,""" ++ [128512]%N ++ runes_of_ascii """
+	    // " ++ [128512]%N ++ runes_of_ascii " emoji
+	  : string_ 
+// trailing space 
+  	// @lengthOf(
+  ,
+""CRC32""
+	:
+
+options1 ,  [ ""1"" 	 // c
+  ]:	crc  ,
+
+""packet""	// " ++ [27880; 37322]%N ++ runes_of_ascii "
+	:
+options1	,
+	[	42,	""a	b""
+    , 
+      // trailing space 
+    """ ++ [233]%N ++ runes_of_ascii "t" ++ [233]%N ++ runes_of_ascii """	/// triple
+
+	,
+""abc""
+
+    ,
+
+0123456789
+,
+
+    ""{,}""
+,	// trailing space 
+	  00 , """ ++ [233]%N ++ runes_of_ascii "t" ++ [233]%N ++ runes_of_ascii """// packet A { u8 x, }
+    ]:
+asx
+}
+	,repeat f64 charz  , @tag(10  )repeat
+charz
+
+Logon
+
+,
+	@lengthOf(
+
+u8x )
+@calculatedFrom(""a\""b"")
+	@rightPad// @lengthOf(
+	(
+' '
+) 
+u8 
+a1	`u8 x,` ,
+}
+	packet falsey
+{ repeat
+    char[]zchar
+, @tag(255
+    ) @calculatedFrom(
+	""`tick`"" )char[] asx 
+`say ""hi""`
+	,	u8
+	As 
+`u8 x,` , 	 // 50% %s
+  zchar[
+
+00	]
+    uint8x	@lengthOf(// packet A { u8 x, }
+  zchar  )
+	,
+char[  255  ]	uint8x ,
+    Pad	@lengthOf(
+
+    // packet A { u8 x, }
+  _x )
+`" ++ [233]%N ++ runes_of_ascii "`
+    , _x 
+,
+@rightPad (  ' '
+
+    )uint16
+    BodyLength/// triple
+  ,	@lengthOf(
+	int  // " ++ [128512]%N ++ runes_of_ascii " emoji
+  )
+metadata
+tag
+	,
+	int64 string_  `
+` , 
+} root
+
+    packet
+
+    o
+{ } options // packet A { u8 x, }
+
+  {
+} ")).
+Eval vm_compute in ("<<<M237>>>" ++ check (runes_of_ascii "options
+    { }
+packet
+x{ repeat // trailing space 
+rootA {
+    repeat string Header , } ,
+chars	float , @tag(65535
+)
+x_y_z { repeat	T`// not a comment` ,string string_ /// triple
+@lengthOf( x_y_z) `say ""hi""`, Header len  ``,	string lengthOf , }, @tag(  0123456789
+)match crc
+as BodyLength{ ""\" ++ [233]%N ++ runes_of_ascii """	:	repeatCount 65535//x
+: i8i8 ,
+0  : A  ,
+    [ ""a	b"" ,  7	] :packetx , }, @lengthOf(charz	) match
+    body as uint8x{// 50% %s
+00:	stringy
+    [007 , ""`tick`"" // 50% %s
+, ""\n"" ]	:
+T [ ""// no comment"", ""a\\""] : float , [ 10
+] : //x
+A , ""a	b"": //	t
+roots	}
+    , pack { match // a // b
+Pad as
+    calculatedFrom { 255
+    :string_""" ++ [28040; 24687]%N ++ runes_of_ascii """
+    :  i64_,}  , // " ++ [27880; 37322]%N ++ runes_of_ascii "
+uint32  matchKey@calculatedFrom(
+    ""1""
+    // 50% %s
+    ) ,len leftPad , repeat MetaDataX{ i64
+// " ++ [128512]%N ++ runes_of_ascii " emoji
+//
+len , }
+    ,
+    } ,char[]tag
+// packet A { u8 x, }
+//x
+@calculatedFrom( ""packet"" )
+// `tick` ""quote"" 'q'
+// a // b
+`line1
+line2`, float , uint8x
+    @lengthOf(
+crc )
+    `it's`,
+    @tag(	007 )
+float32 tag @calculatedFrom(""" ++ [233]%N ++ runes_of_ascii "t" ++ [233]%N ++ runes_of_ascii """) , }
 ")).
-Eval vm_compute in ("<<<M1265>>>" ++ check (runes_of_ascii "// top
-packet // c0
-B // c1
-{ // c2
-u8 // c3
-a , // c5a
-  // c5b
-} // c6
-root // c7
-packet P // c9a
-  // c9b
+Eval vm_compute in ("<<<M1913>>>" ++ check (runes_of_ascii "
+// a // b
+root
+
+packet 
+uint8x { repeat
+x
+
+    {	tag
+
+@calculatedFrom( ""// no comment"") `it's` ,  } ,
+    //x
+	A 
+	//	t
+    // @lengthOf(
+  @calculatedFrom( // trailing space 
+  ""abc""
+    ), uint64 zchar	, 
+
+    //	t
+    //	t
+	zchar[
+
+7
+    ]
+msg_type,
+
+@calculatedFrom(  """ ++ [28040; 24687]%N ++ runes_of_ascii """ 
+// " ++ [27880; 37322]%N ++ runes_of_ascii "
+  )
+    crc  ,
+        // `tick` ""quote"" 'q'
+f32a
+Pad , 
+Header
+
+// 50% %s
+	//x
+  ,  // trailing space 
+
+zchar[
+42] x
+    @calculatedFrom(  ""\n""  )  `" ++ [28040; 24687; 31867; 22411]%N ++ runes_of_ascii "`
+,
+
+string len
+,  }  packet
+
+    falsey{
+
+// " ++ [27880; 37322]%N ++ runes_of_ascii "
+  i64_ 
+@calculatedFrom( ""{,}"") ,repeat
+    string
+
+    chars
+    ,
+	// `tick` ""quote"" 'q'
+  	zchar[	7 ]
+
+calculatedFrom , Header
+
+    {char
+	u
+	`crlf
+line`	, repeat
+
+char[] 
+tag `a\`
+    ,
+	Z9_
+
+@lengthOf(
+
+T
+	)  // " ++ [27880; 37322]%N ++ runes_of_ascii "
+	  `say ""hi""`,
+
+    } 
+, 
+    /// triple
+  // " ++ [27880; 37322]%N ++ runes_of_ascii "
+  msg_type@calculatedFrom(  ""// no comment"" 
+)
+,  @rightPad	(
+'\x00' 
+)  @lengthOf(
+	asx 
+)
+falsey ,
+} 	 // a // b
+")).
+Eval vm_compute in ("<<<M44>>>" ++ check (runes_of_ascii "MetaData BodyLength {} packet x_y_z
+{
+@lengthOf(  roots )
+    A { // " ++ [128512]%N ++ runes_of_ascii " emoji
+repeat
+    zchar[0123456789  ]
+    Z9_`a\`, },
+}
+    options // packet A { u8 x, }
+{ Pad =
+    ""x y"" ; // trailing space 
+trueish
+=
+true body =
+3 ; matchKey=
+true //x
+; i64_ =
+    char[] ; }packet Packet  {char[]
+// " ++ [128512]%N ++ runes_of_ascii " emoji
+// `tick` ""quote"" 'q'
+float@calculatedFrom( ""`tick`"" ) ,char[] charz @calculatedFrom( ""abc"" ) ,match As as
+    // packet A { u8 x, }
+    asx // @lengthOf(
+{ [ """ ++ [28040; 24687]%N ++ runes_of_ascii """, ""`tick`""
+, ""{,}"" ,
+""{,}"" , ""a	b""
+    // " ++ [27880; 37322]%N ++ runes_of_ascii "
+    , 1
+, ""\" ++ [233]%N ++ runes_of_ascii """	] :	rootA
+,
+    255:	asx 42
+    : a1 , 42 : x_y_z  """" :
+    msg_type
+,7 : f32a ,	}
+,  @leftPad
+( '0'
+) repeatCount crc `// not a comment`
+    ,
+@lengthOf(MetaDataX) float64 falsey@calculatedFrom( ""\" ++ [233]%N ++ runes_of_ascii """ ) `" ++ [233]%N ++ runes_of_ascii "` , }
+
+")).
+Eval vm_compute in ("<<<M1959>>>" ++ check (runes_of_ascii "packet crc {
+    // a // b
+    @tag(4294967296)
+    @leftPad('\x00')
+    repeat zchar[4294967296] Packet,
+    @leftPad('0')
+    @tag(3)
+    @tag(7)
+    repeat matchKey {
+        u32 u,
+    },
+    @lengthOf(chars)
+    /// triple
+    @calculatedFrom(""a	b"")
+    @tag(0123456789)
+    zchar[255] Pad,
+    repeat uint64 u128 `two words`,
+    @calculatedFrom(""abc"")
+    i8 packetx,
+    string lengthOf,// " ++ [27880; 37322]%N ++ runes_of_ascii "
+}
+
+root packet stringy {
+    @leftPad('0')
+    matchKey roots,
+    // @lengthOf(
+    // trailing space 
+    @tag(7)
+    int8 A @lengthOf(repeatCount) `{ , }`,
+    repeat u {
+        // " ++ [27880; 37322]%N ++ runes_of_ascii "
+        int16 Foo `it's`,
+        string u,
+    },
+}// @lengthOf(")).
+Eval vm_compute in ("<<<M1344>>>" ++ check (runes_of_ascii "// top
+packet // c0a
+  // c0b
+u128
+    // c1
+{ // c2a
+  // c2b
+u8
+    // c3
+a ,
+    // c5
+} // c6a
+  // c6b
+root // c7a
+  // c7b
+packet // c8a
+  // c8b
+Msg // c9
 { // c10a
   // c10b
-u8 // c11
-K , // c13a
-  // c13b
-match K // c15a
-  // c15b
-as // c16a
+u8
+    // c11
+k // c12a
+  // c12b
+, u24 // c14a
+  // c14b
+{ // c15
+u8 // c16a
   // c16b
-Body { // c18
-1 :
-    // c20
-B , }
-    // c23
-, // c24a
-  // c24b
-u16 // c25a
-  // c25b
-L // c26
-@lengthOf( Body
-    // c28
-)
-    // c29
-,
-    // c30
-} ")).
-Eval vm_compute in ("<<<M1501>>>" ++ check (runes_of_ascii "MetaData T {
-    a1 Packet,// " ++ [128512]%N ++ runes_of_ascii " emoji
-    uint8x Pad `" ++ [233]%N ++ runes_of_ascii "`,
-    a1 MetaDataX,
-    zchar[00] metadata `u8 x,`,
-    Pad x `
-    `,
-    i8 u8x,
-}
-
-options {
-    As = false;
-}
-
-root packet options1 {
-    @calculatedFrom(""// no comment"")
-    @lengthOf(_x)
-    @tag(007)
-    repeat f32 i8i8 `" ++ [233]%N ++ runes_of_ascii "`,
-    @rightPad(' ')
-    repeat Pad,
-}")).
-Eval vm_compute in ("<<<M1362>>>" ++ check (runes_of_ascii "
-
-  options
-{
-
-    LittleEndian 
-= false;	StringPrefixLenType=u16
-;
-
-}
-
-    packet Heartbeat { 
-@rightPad
-	(
-'0' )  char[7
-    ] 
-seqNo,
-
-uint64
-
-    Tail
-
-,	i16
-Flags,u16
-msgKind , } 
-root
-packet	Reject {	zchar[
-
-    3  ] tag7  ,
-repeat 
-Heartbeat ,  repeat string
-    clOrdID , }
-
-")).
-Eval vm_compute in ("<<<M1694>>>" ++ check (runes_of_ascii "// top
-options {
-    // c1
-    f32a = 0
-    // c4
-}
-
-// c5
-packet trueish {
-    // c8
-}
-
-// c9
-MetaData _x {
-    // c12
-    char[0123456789] zchar,
+Hi
     // c17
-    string crc,
-    // c20
-    char[1] options1,
+, u16 // c19
+Lo , // c21
+} , // c23a
+  // c23b
+repeat
+    // c24
+i24
     // c25
-    uint8 repeatCount,
+{ // c26
+u32
+    // c27
+q
     // c28
-}
-// c29")).
-Eval vm_compute in ("<<<M1532>>>" ++ check (runes_of_ascii "MetaData chars {
-    uint64 A,
-    msg_type asx,
-    Z9_ a1,
-    stringy i64_ `doc`,
-}
-
-packet x_y_z {
-}
-
-options {
-    float = float32
-    rootA = false;
-    repeatCount = char[10];
-}
-
-packet Z9_ {
-    zchar[007] charz,
-}//x")).
-Eval vm_compute in ("<<<M1693>>>" ++ check (runes_of_ascii "
-// top
-    	root // c0
-    packet P // c2
-{  // c3
-
-hdr 
-    // c4
-	{ 
-  // c5
-u8 	 // c6
-a	// c7a
-    // c7b
-  , 
-    // c8
-  }
-
-, 	 // c10
-  	u8 // c11
-
-x // c12a
-// c12b
-  ,}
-// c14
+, // c29
+} // c30
+, // c31
+u128 // c32
+, // c33
+u16 // c34a
+  // c34b
+float32x , // c36
+string // c37a
+  // c37b
+s // c38a
+  // c38b
+, // c39a
+  // c39b
+} // c40a
+  // c40b
 ")).
-Eval vm_compute in ("<<<M1293>>>" ++ check (runes_of_ascii "packet A {
+Eval vm_compute in ("<<<M1515>>>" ++ check (runes_of_ascii "
+packet string_ 	 /// triple
+  { match
+
+    MetaDataX as  
+      /// triple
+	  matchKey  {
+[
+	""1"" ,
+
+    ""x y""	]
+: chars  , }
+
+,@leftPad ( ) char[] 
+    // c
+//	t
+      body
+@lengthOf( // `tick` ""quote"" 'q'
+	int
+
+    ),
+	int16
+
+    T
+	, string 
+      // 50% %s
+    	/// triple
+  	int@lengthOf(
+uint8x)  ,	repeat chars Foo	// `tick` ""quote"" 'q'
+  ,}
+
+options { msg_type 
+
+// a // b
+
+=
+
+    true
+
+    f32a
+    =""packet"" 
+}
+root packet u128  { zchar[007 ]
+    metadata
+	@lengthOf( int) `100% of %d`  ,
+	}")).
+Eval vm_compute in ("<<<M1527>>>" ++ check (runes_of_ascii "MetaData o {
+    charz calculatedFrom `
+    `,
+    float64 rootA,
+}
+
+packet A {
+    asx @lengthOf(packetx) `u8 x,`,
+    @lengthOf(packetx)
+    a1 {
+        int32 matchKey @lengthOf(asx) `" ++ [28040; 24687; 31867; 22411]%N ++ runes_of_ascii "`,
+        Header `{ , }`,
+        repeat f64 falsey `100% of %d`,
+    },
+    repeat u32 lengthOf,
+    u64 Z9_,
+    /// triple
+    @lengthOf(_x)
+    packetx {
+        _x,/// triple
+    },
+    zchar[1] a1 @lengthOf(chars),
+    u64 crc `100% of %d`,
+    char[65535] chars,
+}
+
+root packet int {
+}")).
+Eval vm_compute in ("<<<M77>>>" ++ check (runes_of_ascii "packet string_ /// triple
+{ match
+MetaDataX as
+    /// triple
+    matchKey {[ ""1"" , ""x y"" ]
+: chars,
+}, @leftPad
+    ( ) char[]
+// c
+//	t
+body @lengthOf( // `tick` ""quote"" 'q'
+int ) , int16
+T
+, string
+// 50% %s
+/// triple
+int  @lengthOf( uint8x ),repeat chars Foo // `tick` ""quote"" 'q'
+, }	options {
+    msg_type
+    // a // b
+    =true
+    f32a =  ""packet"" } root packet u128{	zchar[
+007] metadata  @lengthOf( int)
+`100% of %d`,
+    }")).
+Eval vm_compute in ("<<<M95>>>" ++ check (runes_of_ascii "root packet leftPad  {T
+@lengthOf(	A )
+`" ++ [28040; 24687; 31867; 22411]%N ++ runes_of_ascii "` , Header@lengthOf( // trailing space 
+As  ) ,
+string calculatedFrom
+`" ++ [233]%N ++ runes_of_ascii "` , @calculatedFrom(// " ++ [128512]%N ++ runes_of_ascii " emoji
+""a	b"") repeat x_y_z {
+    char[]T , uint8x { char[
+007]
+    Packet @calculatedFrom( ""`tick`""
+)`100% of %d`
+,
+    } ,
+} ,
+char[]
+    T @lengthOf( f32a
+) ,
+    //x
+    options1 Z9_//	t
+,
+char[ 007 ] body `it's` , repeat zchar[42 ]
+Packet `{ , }` , } // a // b")).
+Eval vm_compute in ("<<<M1534>>>" ++ check (runes_of_ascii "packet o {
+    zchar[7] f32a @calculatedFrom(""a\""b""),
+    @lengthOf(pack)
+    options1,
+    @calculatedFrom(""abc"")
+    Header,
+    @lengthOf(Logon)
+    zchar[4294967296] asx @lengthOf(u) `100% of %d`,
+    @leftPad(' ')
+    @calculatedFrom(""`tick`"")
+    uint16 x_y_z `doc`,
+    @tag(00)
+    zchar[1] u,
+    @calculatedFrom(""a\""b"")
+    //
+    u8x uint8x,
+    char[1] metadata,
+}")).
+Eval vm_compute in ("<<<M1919>>>" ++ check (runes_of_ascii "
+packet
+B 	 // c1a
+
+	// c1b
+  { 
+
+    // c2
+  u8	// c3
+a 	 // c4
+  ,
+
+    string // c6a
+  // c6b
+s
+,  }  root	// c10a
+      // c10b
+  packet 
+      // c11
+  P	// c12a
+  // c12b
+  	{  // c13
+  u16	// c14
+      L@lengthOf(	// c16
+    B	// c17a
+    // c17b
+		)
+
+    // c18
+      ,	// c19
+B
+, 	 // c21
+	  u8 t ,
+
+    }	// c25a
+// c25b
+ 
+")).
+Eval vm_compute in ("<<<M1763>>>" ++ check (runes_of_ascii "packet A {
     u8 a,
 }
+
 packet B {
     u16 b,
 }
-root packet P {
-    u8 K1,
-    u8 K2,
-    match K1 as M1 {
+
+packet C {
+    u32 c,
+}
+
+root packet M {
+    u16 Kc,
+    u16 Kb,
+    u16 Ka,
+    match Kc as X {
+        9 : A,
+        10 : B,
+    },
+    match Kb as Y {
+        2 : C,
         1 : A,
     },
-    match K2 as M2 {
+    match Ka as Z {
         1 : B,
     },
-}
+    A,
+    B,
+    C,
+}")).
+Eval vm_compute in ("<<<M1198>>>" ++ check (runes_of_ascii "// top
+options // c0
+{ // c1
+} // c2
+options // c3
+{ // c4
+MetaDataX // c5
+= // c6
+char // c7
+; // c8
+} // c9
+MetaData // c10
+Pad // c11
+{ // c12
+i8 // c13
+metadata // c14
+, // c15
+string // c16
+stringy // c17
+, // c18
+int8 // c19
+As // c20
+`{ , }` // c21
+, // c22
+} // c23
 ")).
-Eval vm_compute in ("<<<M224>>>" ++ check (runes_of_ascii "root packet
-T
-{ zchar[ // a // b
-0123456789
-] // c
-uint8x , }  root packet metadata { @rightPad( )  x_y_z @lengthOf( stringy )
+Eval vm_compute in ("<<<M308>>>" ++ check (runes_of_ascii "MetaData packetx
+    { zchar[ 255 ]	u128`" ++ [233]%N ++ runes_of_ascii "` ,  } packet Pad {
+repeat crc ,
+zchar[
+10 ]  calculatedFrom `{ , }`
+,}packet _x
+    {@lengthOf(
+roots )match Header
+as metadata
+    // " ++ [27880; 37322]%N ++ runes_of_ascii "
+    {  [ 10
+    ]	:pack } , char[
+255 ] // 50% %s
+Logon
+, } // a // b")).
+Eval vm_compute in ("<<<M162>>>" ++ check (runes_of_ascii "options {i8i8
+    =	""\n"" Header =
+""x y""
+; /// triple
+} root
+    packet
+    A { match charz as
+    T
+    {
+    //
+    0:// trailing space 
+options1// `tick` ""quote"" 'q'
+}, }  packet float/// triple
+{ @rightPad ( ) repeat metadata`u8 x,` , }
+")).
+Eval vm_compute in ("<<<M539>>>" ++ check (runes_of_ascii "packet
+    asx { @calculatedFrom(
+""""  ) @tag( 255 )repeat
+// packet A { u8 x, ?}
+// trailing space 
+int16 u8x
+,
+@tag(
+    //
+    007 )
+    @tag( 0
+    /// triple
+    ) @tag( 1) u
+    @lengthOf( T ),
 // `tick` ""quote"" 'q'
-// c
-, }")).
-Eval vm_compute in ("<<<M1869>>>" ++ check (runes_of_ascii "
+//x
+} // " ++ [128512]%N ++ runes_of_ascii " emoji")).
+Eval vm_compute in ("<<<M503>>>" ++ check (runes_of_ascii "packet
+    asx { @calculatedFrom(
+""""  ) @tag( 255 )repeat
+// packet A { u8 x, }
+// trailing space 
+int16 u8x
+,
+@tag(
+    //
+    007 )
+    @tag( 0
+    /// triple
+    ) @tag( 1) u
+    T @lengthOf( ),
+// `tick` ""quote"" 'q'
+//x
+} // " ++ [128512]%N ++ runes_of_ascii " emoji")).
+Eval vm_compute in ("<<<M456>>>" ++ check (runes_of_ascii "packet
+    asx { @calculatedFrom(
+""""  ) @tag( 255 )repeat
+// packet A { u8 x, }
+// trailing space 
+int16 u8x
+,
+@tag(
+    //
+     )
+    @tag( 0
+    /// triple
+    ) @tag( 1) u
+    @lengthOf( T ),
+// `tick` ""quote"" 'q'
+//x
+} // " ++ [128512]%N ++ runes_of_ascii " emoji")).
+Eval vm_compute in ("<<<M221>>>" ++ check (runes_of_ascii "packet msg_type { }  packet
+Z9_ {
+roots i8i8,	@lengthOf( string_	)
+char[
+255
+]i64_ , repeat u16 packetx `it's`
+, char[ 255  ]
+u8x	,
+@rightPad(
+'0') @tag(  0123456789
+) zchar[ 7 ]tag
+    `tab	here` ,u32
+charz ``, }
+")).
+Eval vm_compute in ("<<<M1336>>>" ++ check (runes_of_ascii "  root
+
 packet
-    A
 
-    { match
-    k  as
+Frame
 
-    n{
+{
 
-    [ 
-""a""  , ""bb"" , 
-007
-,
-    ""d"" , ""e""
-
-,
-66	, ""g"",
-    ""h""  ,  9, 
-""j""  ,
-	""k"" ]: B,2 :
-C
-}
-
-,}
-")).
-Eval vm_compute in ("<<<M531>>>" ++ check (runes_of_ascii "packet uint8x
-{ match pack
-    as msg_type	{
-    0123456789 :	float
-}
-,
-} packet //	t
-a1
-    { } options {packetx
-    = '\x00'	; u128= ""a	b""  ; } }
-")).
-Eval vm_compute in ("<<<M432>>>" ++ check (runes_of_ascii "packet uint8x
-{ match pack
-    as msg_type	{
-    : 0123456789	float
-}
-,
-} packet //	t
-a1
-    { } options {packetx
-    = '\x00'	; u128= ""a	b""  ; }
-")).
-Eval vm_compute in ("<<<M470>>>" ++ check (runes_of_ascii "packet uint8x
-{ match pack
-    as msg_type	{
-    0123456789 :	float
-}
-,
-} packet //	t
-a1
-     } options {packetx
-    = '\x00'	; u128= ""a	b""  ; }
-")).
-Eval vm_compute in ("<<<M493>>>" ++ check (runes_of_ascii "packet uint8x
-{ match pack
-    as msg_type	{
-    0123456789 :	float
-}
-,
-} packet //	t
-a1
-    { } options {f64
-    = '\x00'	; u128= ""a	b""  ; }
-")).
-Eval vm_compute in ("<<<M711>>>" ++ check (runes_of_ascii "// @lengthOf(
-packet i8i8 { u128 o , }
-options { MetaDataX = true;
-    BodyLength =""packet"" x_y_z= 007
-""crc //x
-= ""abc"" ;
-    msg_type =
-i16 }")).
-Eval vm_compute in ("<<<M704>>>" ++ check (runes_of_ascii "// @lengthOf(
-packet i8i8 { u128 o , }
-options { MetaDataX = true;
-    BodyLength =""packet"" x_y_z 007
-crc //x
-= ""abc"" ;
-    msg_type =
-i16 }")).
-Eval vm_compute in ("<<<M1463>>>" ++ check (runes_of_ascii "packet A {
-    match k as n {
-        [
-            1, ""bb"", 007, ""d"", 5,
-            ""f"", 7, ""h""
-        ] : B,
-        2 : C,
-    },
-}")).
-Eval vm_compute in ("<<<M1783>>>" ++ check (runes_of_ascii "packet A {
-    match k as n {
-        [
-            ""a"", ""bb"", 007, ""d"", ""e"",
-            66
-        ] : B,
-        2 : C,
-    },
-}")).
-Eval vm_compute in ("<<<M1550>>>" ++ check (runes_of_ascii "
-
-  packet A
-
-{ match
-	k 
-as
-n {
-    [
-
-    ""a"", 
-""bb"" ,
-""c c""
+    u8  K
 	,
 
-    ""d""
-,""e"" ,
-	""f"" ]
-: B
-    2
-:
-C}
-    ,  }
-")).
-Eval vm_compute in ("<<<M1153>>>" ++ check (runes_of_ascii "MetaData leftPad { chars MetaDataX , // c
-} packet repeatCount { char[ 255 ] uint8x `" ++ [233]%N ++ runes_of_ascii "` , } MetaData pack { As Foo , }")).
-Eval vm_compute in ("<<<M1185>>>" ++ check (runes_of_ascii "MetaData leftPad { chars MetaDataX , } packet repeatCount { char[ 255 ] uint8x `" ++ [233]%N ++ runes_of_ascii "` , } MetaData pack { As Foo // c
-, }")).
-Eval vm_compute in ("<<<M1461>>>" ++ check (runes_of_ascii "packet asx {
-    match u128 as lengthOf {
-        //	t
-        // `ti/ck` ""quote"" 'q'
-        255 : x,
-    },
-}")).
-Eval vm_compute in ("<<<M909>>>" ++ check (runes_of_ascii "packet A {
-  match k as n {
-    [1, ""bb"", 007, ""d"", 5, ""f"", 7, ""h"", 9, ""j"", 11, ""l""] : B
-    2 : C
-  },
-}")).
-Eval vm_compute in ("<<<M160>>>" ++ check (runes_of_ascii "
-MetaData zchar { roots
-A , char[] falsey `line1
-line2` ,
-// " ++ [128512]%N ++ runes_of_ascii " emoji
-// @lengthOf(
-int crc ,	} //	t")).
-Eval vm_compute in ("<<<M876>>>" ++ check (runes_of_ascii "packet A {
-  match k as n {
-    [""a"", ""bb"", 007, ""d"", ""e"", 66, ""g"", ""h"", 9] : B
-    2 : C
-  },
-}")).
-Eval vm_compute in ("<<<M1732>>>" ++ check (runes_of_ascii "
-options 
-{ charz
-=
-""1""  _x	=
-	""" ++ [128512]%N ++ runes_of_ascii """ u=
-	string
-;
+    Logon
 
-    stringy
-=""" ++ [28040; 24687]%N ++ runes_of_ascii """ 
-} 
-  // @lengthOf(
- 
-")).
-Eval vm_compute in ("<<<M1909>>>" ++ check (runes_of_ascii "packet A {
-    u32 crc @calculatedFrom(""\
-    ""),
-    @calculatedFrom(""\
-    "")
-    u8 y,
-}")).
-Eval vm_compute in ("<<<M856>>>" ++ check (runes_of_ascii "packet A {
-  match k as n {
-    [1, ""bb"", 007, ""d"", 5, ""f"", 7, ""h""] : B,
-    2 : C
-  },
-}")).
-Eval vm_compute in ("<<<M1737>>>" ++ check (runes_of_ascii "
-packet	A
-    {  match
-    k
-    as
-n
+first , match
 
-    { 
-[
-    1]
-	: B
-	2  : C
+K as Body
 
+{
+1
+	:
+	Logon,
+	2
+: Logout
+    ,
+}  , } packet
+
+Logon {string user	,
     }
 
-, }
-
-")).
-Eval vm_compute in ("<<<M837>>>" ++ check (runes_of_ascii "packet A {
-  match k as n {
-    [""a"", ""bb"", 007, ""d"", ""e"", 66] : B
-    2 : C
-  },
-}")).
-Eval vm_compute in ("<<<M834>>>" ++ check (runes_of_ascii "packet A {
-  match k as n {
-    [1, 22, ""c c"", 4, 5, ""f""] : B,
-    2 : C
-  },
-}")).
-Eval vm_compute in ("<<<M464>>>" ++ check (runes_of_ascii "packet uint8x
-{ match pack
-    as msg_type	{
-    0123456789 :	float
-}
-,
-}")).
-Eval vm_compute in ("<<<M1830>>>" ++ check (runes_of_ascii "root packet P {
-    u16 a,
-    u32 Sum @calculatedFrom(""CR\
-    C32""),
-}")).
-Eval vm_compute in ("<<<M924>>>" ++ check (runes_of_ascii "packet A {
-    B b `a
-b`,
-    B `a
-b`,
-    repeat B bs `a
-b`,
-}")).
-Eval vm_compute in ("<<<M2>>>" ++ check (runes_of_ascii "root
-// trailing space 
-// " ++ [27880; 37322]%N ++ runes_of_ascii "
 packet
-u{  } // trailing space ")).
-Eval vm_compute in ("<<<M773>>>" ++ check (runes_of_ascii "packet A {
-  match k as n {
-    [1] : B,
-    2 : C
-  },
-}")).
-Eval vm_compute in ("<<<M1481>>>" ++ check (runes_of_ascii "
-MetaData
 
-    M
-{ 
-u8 
-x  `
-` 
+    Logout
+{u16 reason	,	} ")).
+Eval vm_compute in ("<<<M151>>>" ++ check (runes_of_ascii "
+MetaData u128 {zchar[
+// " ++ [128512]%N ++ runes_of_ascii " emoji
+// 50% %s
+4294967296 ]
+lengthOf`a\`, } packet
+    leftPad {
+@rightPad('0') calculatedFrom float // 50% %s
+`" ++ [28040; 24687; 31867; 22411]%N ++ runes_of_ascii "` , char[255	]
+    metadata , }")).
+Eval vm_compute in ("<<<M302>>>" ++ check (runes_of_ascii "MetaData o	{ } MetaData
+Header{  repeatCount matchKey  ,}
+packet	As{// c
+@tag(0123456789 ) char[]
+    //	t
+    tag
 ,
-	T
-t  `
-`	,	}
+    @calculatedFrom(
+""x y""
+) crc
+    `it's` ,
+    }
 ")).
-Eval vm_compute in ("<<<M1079>>>" ++ check (runes_of_ascii "packet A { u8 x, } // a
-// b
-packet B {} // c
-// d")).
-Eval vm_compute in ("<<<M47>>>" ++ check (runes_of_ascii "MetaData	lengthOf
-{
-Header o `doc`
-    ,}
+Eval vm_compute in ("<<<M597>>>" ++ check (runes_of_ascii "MetaData u
+    { } MetaData o
+{ float uint8x
+`100% of %d` , ,repeatCount u8x, string_ leftPad
+, i32
+    Foo , int64 x `two words` , calculatedFrom
+stringy `a\` ,
+}
 ")).
-Eval vm_compute in ("<<<M1871>>>" ++ check (runes_of_ascii "root packet P {
-    char c,
-    u8 x,
-}")).
-Eval vm_compute in ("<<<M1663>>>" ++ check (runes_of_ascii "  MetaData
-M{	}// c
-	  options{ } ")).
-Eval vm_compute in ("<<<M1915>>>" ++ check (runes_of_ascii "packet A {
-    u8 x `d" ++ [11]%N ++ runes_of_ascii "`,// c" ++ [11]%N ++ runes_of_ascii "
-}")).
-Eval vm_compute in ("<<<M1076>>>" ++ check (runes_of_ascii "MetaData M {
-}// c
-packet A {}")).
-Eval vm_compute in ("<<<M1614>>>" ++ check (runes_of_ascii "
+Eval vm_compute in ("<<<M554>>>" ++ check (runes_of_ascii "MetaData [
+    { } MetaData o
+{ float uint8x
+`100% of %d` ,repeatCount u8x, string_ leftPad
+, i32
+    Foo , int64 x `two words` , calculatedFrom
+stringy `a\` ,
+}
+")).
+Eval vm_compute in ("<<<M250>>>" ++ check (runes_of_ascii "packet _x { @calculatedFrom( ""packet"" ) char[]
+    T
+    `" ++ [28040; 24687; 31867; 22411]%N ++ runes_of_ascii "`
+,@calculatedFrom(
+""" ++ [28040; 24687]%N ++ runes_of_ascii """	) f64
+pack `" ++ [233]%N ++ runes_of_ascii "` , @calculatedFrom(
+""a	b"" ) repeat crc`100% of %d` //
+,
+}
+")).
+Eval vm_compute in ("<<<M706>>>" ++ check (runes_of_ascii "MetaData u
+    { } MetaData o
+{ float x" ++ [178]%N ++ runes_of_ascii "
+`100% of %d` ,repeatCount u8x, string_ leftPad
+, i32
+    Foo , int64 x `two words` , calculatedFrom
+stringy `a\` ,
+}
+")).
+Eval vm_compute in ("<<<M601>>>" ++ check (runes_of_ascii "MetaData u
+    { } MetaData o
+{ float uint8x
+`100% of %d` , u8x, string_ leftPad
+, i32
+    Foo , int64 x `two words` , calculatedFrom
+stringy `a\` ,
+}
+")).
+Eval vm_compute in ("<<<M1903>>>" ++ check (runes_of_ascii "
 
   packet
-A
-{  }
+	A {
+match
 
-// c" ++ [160]%N)).
-Eval vm_compute in ("<<<M1695>>>" ++ check (runes_of_ascii "options {
-    a = 1;
-}")).
-Eval vm_compute in ("<<<M244>>>" ++ check (runes_of_ascii "MetaData u128{} //x")).
-Eval vm_compute in ("<<<M1006>>>" ++ check (runes_of_ascii "packet A {
+k
+as 
+n
+{[ 1 ,
+
+    22	,
+
+    007 
+, 
+4  ,
+
+    5	,
+66
+,
+	7  , 8 ,
+9
+,  10
+    ,
+11
+    ] :B
+
+,
+2 : C } ,
+    } ")).
+Eval vm_compute in ("<<<M465>>>" ++ check (runes_of_ascii "packet
+    asx { @calculatedFrom(
+""""  ) @tag( 255 )repeat
+// packet A { u8 x, }
+// trailing space 
+int16 u8x
+,
+@tag(
+    //
+    007")).
+Eval vm_compute in ("<<<M54>>>" ++ check (runes_of_ascii "// trailing space 
+packet
+stringy
+{	repeat char[]  roots , @leftPad
+    //x
+    (// c
+' '  )char T `// not a comment`
+    ,//
 }
-// c" ++ [8202]%N)).
-Eval vm_compute in ("<<<M729>>>" ++ check (runes_of_ascii "// only a comment")).
-Eval vm_compute in ("<<<M1476>>>" ++ check (runes_of_ascii "MetaData tag {
-}")).
-Eval vm_compute in ("<<<M1560>>>" ++ check (runes_of_ascii "  // c" ++ [8232]%N ++ runes_of_ascii "
 ")).
-Eval vm_compute in ("<<<M754>>>" ++ check (runes_of_ascii "Y )'")).
+Eval vm_compute in ("<<<M1473>>>" ++ check (runes_of_ascii "options {
+    charz = ""a\\""
+    // trailing space 
+    rootA = ""packet"";
+    x = ""a	b"";
+    // " ++ [27880; 37322]%N ++ runes_of_ascii "
+    rootA = string
+}")).
+Eval vm_compute in ("<<<M1212>>>" ++ check (runes_of_ascii "options { } options {
+// c
+MetaDataX = char ; } MetaData Pad { i8 metadata , string stringy , int8 As `{ , }` , }")).
+Eval vm_compute in ("<<<M1244>>>" ++ check (runes_of_ascii "options { } options { MetaDataX = char ; } MetaData Pad { i8 metadata , string stringy , int8 As
+// c
+`{ , }` , }")).
+Eval vm_compute in ("<<<M899>>>" ++ check (runes_of_ascii "packet A {
+  match k as n {
+    [""a"", ""bb"", 007, ""d"", ""e"", 66, ""g"", ""h"", 9, ""j"", ""k""] : B,
+    2 : C
+  },
+}")).
+Eval vm_compute in ("<<<M886>>>" ++ check (runes_of_ascii "packet A {
+  match k as n {
+    [""a"", ""bb"", 007, ""d"", ""e"", 66, ""g"", ""h"", 9, ""j""] : B,
+    2 : C
+  },
+}")).
+Eval vm_compute in ("<<<M345>>>" ++ check (runes_of_ascii "
+options
+    { Packet//x
+=""a\\""
+Logon
+    = true f32a
+    = true // 50% %s
+;falsey = false
+; }")).
+Eval vm_compute in ("<<<M385>>>" ++ check (runes_of_ascii "root packet SimpleMessage {
+    uint16 MsgType `" ++ [28040; 24687; 31867; 22411]%N ++ runes_of_ascii "`,
+    string JsonBody `Json" ++ [23383; 31526; 20018; 28040; 24687; 20307]%N ++ runes_of_ascii "`,
+}")).
+Eval vm_compute in ("<<<M876>>>" ++ check (runes_of_ascii "packet A {
+  match k as n {
+    [1, 22, 007, 4, 5, 66, 7, 8, 9, 10] : B,
+    2 : C
+  },
+}")).
+Eval vm_compute in ("<<<M286>>>" ++ check (runes_of_ascii "// a // b
+root packet falsey {
+    }	options {Pad//
+= // " ++ [27880; 37322]%N ++ runes_of_ascii "
+f32 } root packet T { }")).
+Eval vm_compute in ("<<<M831>>>" ++ check (runes_of_ascii "packet A {
+  match k as n {
+    [""a"", 22, ""c c"", 4, ""e"", 66] : B
+    2 : C
+  },
+}")).
+Eval vm_compute in ("<<<M620>>>" ++ check (runes_of_ascii "MetaData u
+    { } MetaData o
+{ float uint8x
+`100% of %d` ,repeatCount u8x,")).
+Eval vm_compute in ("<<<M1910>>>" ++ check (runes_of_ascii "// c
+packet options1 {
+    options1 x,
+}
+
+options {
+    Logon = float32
+}")).
+Eval vm_compute in ("<<<M1294>>>" ++ check (runes_of_ascii "root packet P {
+    u16 a,
+    u32 Sum @calculatedFrom(""CR\
+C32""),
+}
+")).
+Eval vm_compute in ("<<<M1120>>>" ++ check (runes_of_ascii "// top
+MetaData
+    // c0
+tag
+    // c1
+{
+    // c2
+}
+    // c3
+")).
+Eval vm_compute in ("<<<M773>>>" ++ check (runes_of_ascii "packet A {
+  match k as n {
+    [""a""] : B,
+    2 : C
+  },
+}")).
+Eval vm_compute in ("<<<M280>>>" ++ check (runes_of_ascii "packet T{ zchar[  7
+]  charz , } packet MetaDataX { }
+")).
+Eval vm_compute in ("<<<M222>>>" ++ check (runes_of_ascii "options// packet A { u8 x, }
+{ i8i8 = '\x00' }
+")).
+Eval vm_compute in ("<<<M124>>>" ++ check (runes_of_ascii "packet A { repeat f64 A , } // @lengthOf(")).
+Eval vm_compute in ("<<<M190>>>" ++ check (runes_of_ascii "MetaData i8i8 {// a // b
+int8 As , }
+")).
+Eval vm_compute in ("<<<M1553>>>" ++ check (runes_of_ascii "root
+packet
+
+    P { string 
+s ,} ")).
+Eval vm_compute in ("<<<M1933>>>" ++ check (runes_of_ascii "MetaData u128 {
+    body float,
+}")).
+Eval vm_compute in ("<<<M1012>>>" ++ check (runes_of_ascii "packet A {
+ u8 x `d" ++ [133]%N ++ runes_of_ascii "`, // c" ++ [133]%N ++ runes_of_ascii "
+}")).
+Eval vm_compute in ("<<<M1929>>>" ++ check (runes_of_ascii "  packet  A
+	{}
+	    // c 
+")).
+Eval vm_compute in ("<<<M157>>>" ++ check (runes_of_ascii "MetaData x_y_z
+    { }
+")).
+Eval vm_compute in ("<<<M1128>>>" ++ check (runes_of_ascii "MetaData tag { // c
+}")).
+Eval vm_compute in ("<<<M1035>>>" ++ check (runes_of_ascii "packet A {
+}
+// c" ++ [8233]%N)).
+Eval vm_compute in ("<<<M1018>>>" ++ check (runes_of_ascii "packet A {
+}// c" ++ [8192]%N)).
+Eval vm_compute in ("<<<M1832>>>" ++ check (runes_of_ascii "packet i64_ {
+}")).
+Eval vm_compute in ("<<<M994>>>" ++ check (runes_of_ascii "// c ")).
+Eval vm_compute in ("<<<M729>>>" ++ check (runes_of_ascii "/")).
